@@ -2,17 +2,17 @@
    document is well formed for its kind and is followed by a blank or punctuation that delimits
    it ([pok]), so that lex_print_tokens applies to the written text. *)
 From Coq Require Import Arith NArith ZArith List Bool Lia.
-From Acme.C08 Require Import DbcAst Chars DbcLex DbcParse DbcWrite Expr ProofsFormat ProofsSections ProofsFile.
+From Acme.C08 Require Import DbcAst Chars DbcLex DbcParse DbcWrite Expr ProofsLexPrint ProofsFormat ProofsSections ProofsFile.
 Import ListNotations.
 Local Open Scope N_scope.
 
-Lemma pok_app_intro : forall a b tail, pok a (render b ++ tail) -> pok b tail -> pok (a ++ b) tail.
+Lemma pok_app_intro : forall up a b tail, pok up a (render b ++ tail) -> pok up b tail -> pok up (a ++ b) tail.
 Proof. intros. apply pok_app. split; assumption. Qed.
 
-Lemma pok_flat_map : forall A (f : A -> list piece) l tail,
-  (forall x tail', In x l -> pok (f x) tail') -> pok (flat_map f l) tail.
+Lemma pok_flat_map : forall up A (f : A -> list piece) l tail,
+  (forall x tail', In x l -> pok up (f x) tail') -> pok up (flat_map f l) tail.
 Proof.
-  intros A f l tail H. induction l as [|x l IH]; [exact I|]. cbn [flat_map]. apply pok_app_intro.
+  intros up A f l tail H. induction l as [|x l IH]; [exact I|]. cbn [flat_map]. apply pok_app_intro.
   - apply H. left; reflexivity.
   - apply IH. intros y t Hy. apply H. right; exact Hy.
 Qed.
@@ -22,12 +22,12 @@ Proof. intros. unfold render. apply flat_map_app. Qed.
 
 (* lists whose elements end in a token that needs a delimiter: fine when every element starts
    with a delimiter and the text after the list does too *)
-Lemma pok_flat_map_tail : forall A (f : A -> list piece) (P : str -> Prop) l tail,
-  (forall x R, In x l -> P R -> pok (f x) R) ->
+Lemma pok_flat_map_tail : forall up A (f : A -> list piece) (P : str -> Prop) l tail,
+  (forall x R, In x l -> P R -> pok up (f x) R) ->
   (forall x R, P (render (f x) ++ R)) ->
-  P tail -> pok (flat_map f l) tail.
+  P tail -> pok up (flat_map f l) tail.
 Proof.
-  intros A f P l tail H1 H2 Ht. induction l as [|x l IH]; [exact I|]. cbn [flat_map]. apply pok_app_intro.
+  intros up A f P l tail H1 H2 Ht. induction l as [|x l IH]; [exact I|]. cbn [flat_map]. apply pok_app_intro.
   - apply H1; [left; reflexivity|]. destruct l as [|y l']; [exact Ht|]. cbn [flat_map]. rewrite render_app, <- app_assoc. apply H2.
   - apply IH. intros y R Hy. apply H1. right; exact Hy.
 Qed.
@@ -35,24 +35,30 @@ Qed.
 Definition good (R : str) : Prop := match R with [] => True | t :: _ => is_term t = true /\ (t =? ch_minus) = false end.
 
 (* ---- well-formed tokens ---- *)
-Lemma wf_unum : forall n, tok_wf KNumber (format_uint n).
+Lemma wf_unum : forall up n, tok_wf up KNumber (format_uint n).
 Proof. intros. left. apply format_uint_plain. Qed.
-Lemma wf_inum : forall z, tok_wf KNumber (format_int z).
+Lemma wf_inum : forall up z, tok_wf up KNumber (format_int z).
 Proof. intros. left. apply format_int_plain. Qed.
 
 Section Pok.
+Variable up : N -> bool.
+Hypothesis Hup : ud_ok up.
 Variable fmt : N -> str.
 Variable prs : str -> option N.
 Variable hex : bool.
 Hypothesis Horacle : oracle_ok fmt prs.
 
-Lemma wf_fl : forall b, fin b = true -> tok_wf KNumber (fmt b).
+Lemma wf_ascii_word : forall k v, wf_word no_ud k v = true -> wf_word up k v = true.
+Proof. intros k v H. exact (wf_word_up up Hup ascii_digit (fun c _ => eq_refl) k v H). Qed.
+
+Lemma wf_fl : forall b, fin b = true -> tok_wf up KNumber (fmt b).
 Proof. intros b H. left. destruct Horacle as [_ Hs]. apply Hs; exact H. Qed.
 
 (* the generic step: expose the next piece, prove its two conditions *)
 Ltac wf_tac :=
-  first [ exact I | reflexivity | assumption | (left; reflexivity) | apply wf_unum | apply wf_inum | apply wf_fl; assumption
-        | apply format_hex_wf; assumption | apply mux_word_m | apply mux_word_mM | apply range_wf
+  first [ exact I | reflexivity | assumption | (left; reflexivity) | (apply wf_ascii_word; reflexivity)
+        | apply wf_unum | apply wf_inum | apply wf_fl; assumption
+        | apply format_hex_wf; assumption | (apply wf_ascii_word; apply mux_word_m) | (apply wf_ascii_word; apply mux_word_mM) | apply range_wf
         | (split; [discriminate|reflexivity]) ].
 
 Ltac after_tac :=
@@ -63,16 +69,16 @@ Ltac after_tac :=
 Ltac pk :=
   cbv beta delta [sp nl kw pu ident num unum qs fl];
   repeat match goal with
-  | |- pok [] _ => exact I
-  | |- pok (Sp _ :: _) _ => split; [split; [discriminate|reflexivity]|]
-  | |- pok (Tk _ _ :: _) _ => split; [wf_tac|split; [after_tac|]]
-  | |- pok (_ ++ _) _ => apply pok_app_intro
+  | |- pok _ [] _ => exact I
+  | |- pok _ (Sp _ :: _) _ => split; [split; [discriminate|reflexivity]|]
+  | |- pok _ (Tk _ _ :: _) _ => split; [wf_tac|split; [after_tac|]]
+  | |- pok _ (_ ++ _) _ => apply pok_app_intro
   end.
 
-Lemma pok_value_desc : forall d tail, wf_vd d -> pok (w_value_desc d) tail.
+Lemma pok_value_desc : forall d tail, wf_vd d -> pok up (w_value_desc d) tail.
 Proof. intros d tail [H1 H2]. unfold w_value_desc. pk. Qed.
 
-Lemma pok_value_table : forall t tail, wf_value_table t -> pok (w_value_table t) tail.
+Lemma pok_value_table : forall t tail, wf_value_table up t -> pok up (w_value_table t) tail.
 Proof.
   intros t tail [Hn Hv]. unfold w_value_table. pk.
   apply pok_flat_map. intros d t' Hd. apply pok_value_desc. rewrite Forall_forall in Hv. apply Hv; exact Hd.
@@ -82,28 +88,28 @@ Qed.
 Lemma good_after : forall v R, good R -> ok_after KIdent v R = true.
 Proof. intros v [|t R] H; [reflexivity|]. destruct H as [H1 H2]. cbn [ok_after]. rewrite H1, H2. reflexivity. Qed.
 
-Lemma pok_idents : forall l tail, idents_ok l -> good tail -> pok (flat_map (fun n => [sp; ident n]) l) tail.
+Lemma pok_idents : forall l tail, idents_ok up l -> good tail -> pok up (flat_map (fun n => [sp; ident n]) l) tail.
 Proof.
-  intros l tail H Ht. apply (pok_flat_map_tail _ _ good); [| |exact Ht].
+  intros l tail H Ht. apply (pok_flat_map_tail up _ _ good); [| |exact Ht].
   - intros n R Hn HR. unfold idents_ok in H. rewrite Forall_forall in H. specialize (H n Hn).
     cbv delta [sp ident]. split; [split; [discriminate|reflexivity]|]. split; [exact H|]. split; [|exact I].
     cbn [render flat_map app]. apply good_after; exact HR.
   - intros n R. split; reflexivity.
 Qed.
 
-Lemma pok_comma_names : forall l tail, idents_ok l -> good tail -> pok (w_comma_names l) tail.
+Lemma pok_comma_names : forall l tail, idents_ok up l -> good tail -> pok up (w_comma_names l) tail.
 Proof.
   intros l tail H Ht. destruct l as [|x l]; [exact I|]. inversion H as [|x' l' Hx Hl]; subst. unfold w_comma_names.
   cbv delta [sp ident pu]. split; [split; [discriminate|reflexivity]|]. split; [exact Hx|]. split.
   - apply good_after. destruct l as [|y l]; cbn [flat_map app render]; [exact Ht|split; reflexivity].
-  - cbn [app]. apply (pok_flat_map_tail _ _ good); [| |exact Ht].
+  - cbn [app]. apply (pok_flat_map_tail up _ _ good); [| |exact Ht].
     + intros n R Hn HR. rewrite Forall_forall in Hl. specialize (Hl n Hn).
       split; [reflexivity|]. split; [reflexivity|]. split; [split; [discriminate|reflexivity]|].
       split; [exact Hl|]. split; [|exact I]. cbn [render flat_map app]. apply good_after; exact HR.
     + intros n R. split; reflexivity.
 Qed.
 
-Lemma pok_signal : forall s tail, wf_signal s -> pok (w_signal fmt s) tail.
+Lemma pok_signal : forall s tail, wf_signal up s -> pok up (w_signal fmt s) tail.
 Proof.
   intros s tail (Hn & Hm & Hst & Hsz & Hf & Ho & Hmn & Hmx & Hu & Hne & Hr).
   destruct s as [name muxor mux start size bo vt factor offset mn mx unit rcv]; cbn [sg_name sg_mux sg_start sg_size sg_factor sg_offset sg_min sg_max sg_unit sg_receivers sg_multiplexor sg_order sg_vtype] in *.
@@ -113,32 +119,32 @@ Proof.
     try (destruct rcv; [congruence|reflexivity]).
 Qed.
 
-Lemma pok_message : forall m tail, wf_message m -> pok (w_message fmt m) tail.
+Lemma pok_message : forall m tail, wf_message up m -> pok up (w_message fmt m) tail.
 Proof.
   intros m tail (Hid & Hn & Hsz & Htx & Hs). unfold w_message. pk.
   apply pok_flat_map. intros s t Hin. apply pok_signal. rewrite Forall_forall in Hs. apply Hs; exact Hin.
 Qed.
 
-Lemma pok_msg_transmitter : forall t tail, wf_msg_transmitter t -> pok (w_msg_transmitter t) tail.
+Lemma pok_msg_transmitter : forall t tail, wf_msg_transmitter up t -> pok up (w_msg_transmitter t) tail.
 Proof. intros t tail (Hid & Hn). unfold w_msg_transmitter. pk. apply pok_idents; [exact Hn|split; reflexivity]. Qed.
 
-Lemma pok_env_var : forall e tail, wf_env_var e -> pok (w_env_var fmt e) tail.
+Lemma pok_env_var : forall e tail, wf_env_var up e -> pok up (w_env_var fmt e) tail.
 Proof.
   intros e tail (Hn & Hmn & Hmx & Hu & Hi & Hid & Ha & Hne & Hnodes).
   destruct e as [name ty mn mx unit init id acc nodes]; cbn [ev_name ev_ty ev_min ev_max ev_unit ev_init ev_id ev_access ev_nodes] in *.
   unfold w_env_var. cbn [ev_name ev_ty ev_min ev_max ev_unit ev_init ev_id ev_access ev_nodes].
-  assert (Hacc : exists a, nth_error access_names (N.to_nat acc) = Some a /\ wf_word KIdent a = true).
+  assert (Hacc : exists a, nth_error access_names (N.to_nat acc) = Some a /\ wf_word up KIdent a = true).
   { assert (H : acc = 0 \/ acc = 1 \/ acc = 2 \/ acc = 3 \/ acc = 4 \/ acc = 5 \/ acc = 6 \/ acc = 7) by lia.
-    repeat (destruct H as [H|H]); subst; eexists; (split; [reflexivity|reflexivity]). }
+    repeat (destruct H as [H|H]); subst; eexists; (split; [reflexivity|apply wf_ascii_word; reflexivity]). }
   destruct Hacc as [a [Ha1 Ha2]]. rewrite Ha1.
   destruct ty; cbn [w_ev_type]; pk; try (apply pok_comma_names; [exact Hnodes|split; reflexivity]);
     (split; [exact Ha2|split; [destruct nodes; [congruence|reflexivity]|exact I]]).
 Qed.
 
-Lemma pok_env_var_data : forall d tail, wf_env_var_data d -> pok (w_env_var_data d) tail.
+Lemma pok_env_var_data : forall d tail, wf_env_var_data up d -> pok up (w_env_var_data d) tail.
 Proof. intros d tail (Hn & Hs). unfold w_env_var_data. pk. Qed.
 
-Lemma pok_signal_type : forall s tail, wf_signal_type s -> pok (w_signal_type fmt s) tail.
+Lemma pok_signal_type : forall s tail, wf_signal_type up s -> pok up (w_signal_type fmt s) tail.
 Proof.
   intros s tail (Hn & Hsz & Hf & Ho & Hmn & Hmx & Hu & Hd & Ht).
   destruct s as [name size bo vt factor offset mn mx unit dflt table]; cbn [st_name st_size st_order st_vtype st_factor st_offset st_min st_max st_unit st_default st_table] in *.
@@ -146,22 +152,22 @@ Proof.
   destruct bo, vt; cbn [w_byte_order w_sign]; pk.
 Qed.
 
-Lemma pok_signal_type_ref : forall r tail, wf_signal_type_ref r -> pok (w_signal_type_ref r) tail.
+Lemma pok_signal_type_ref : forall r tail, wf_signal_type_ref up r -> pok up (w_signal_type_ref r) tail.
 Proof. intros r tail (Hid & Hs & Ht). unfold w_signal_type_ref. pk. Qed.
 
-Lemma pok_comment : forall c tail, wf_comment c -> pok (w_comment c) tail.
+Lemma pok_comment : forall c tail, wf_comment up c -> pok up (w_comment c) tail.
 Proof.
   intros c tail (Hr & Ht). destruct c as [ref text]; cbn [cm_ref cm_text] in *. unfold w_comment. cbn [cm_ref cm_text].
   destruct ref as [|n|id|id n|n]; cbn [w_obj_ref wf_ref] in *; [| | |destruct Hr as [Hr1 Hr2]|]; pk.
 Qed.
 
-Lemma pok_enum_values : forall l tail, Forall (fun s => expr_string s = true) l -> pok (w_enum_values l) tail.
+Lemma pok_enum_values : forall l tail, Forall (fun s => expr_string s = true) l -> pok up (w_enum_values l) tail.
 Proof.
   intros l tail H. destruct l as [|x l]; [exact I|]. inversion H as [|x' l' Hx Hl]; subst. unfold w_enum_values. pk.
   apply pok_flat_map. intros v t Hv. rewrite Forall_forall in Hl. specialize (Hl v Hv). pk.
 Qed.
 
-Lemma pok_attribute : forall a tail, wf_attribute a -> pok (w_attribute fmt hex a) tail.
+Lemma pok_attribute : forall a tail, wf_attribute a -> pok up (w_attribute fmt hex a) tail.
 Proof.
   intros a tail (Hn & Ht). destruct a as [kind name ty]; cbn [ad_kind ad_name ad_type] in *.
   assert (Hname : expr_string name = true) by (unfold expr_attr_name in Hn; apply andb_true_iff in Hn; tauto).
@@ -174,14 +180,14 @@ Proof.
   - destruct kind; cbn [w_attr_kind]; pk; (split; [reflexivity|split; [destruct l; reflexivity|apply pok_enum_values; exact Ht]]).
 Qed.
 
-Lemma pok_attr_default : forall d tail, wf_attr_default d -> pok (w_attr_default fmt hex d) tail.
+Lemma pok_attr_default : forall d tail, wf_attr_default d -> pok up (w_attr_default fmt hex d) tail.
 Proof.
   intros d tail (Hn & Hv). destruct d as [name v]; cbn [af_name af_value] in *.
   assert (Hname : expr_string name = true) by (unfold expr_attr_name in Hn; apply andb_true_iff in Hn; tauto).
   unfold w_attr_default. cbn [af_name af_value]. destruct v; cbn [w_attr_val wf_val] in *; pk.
 Qed.
 
-Lemma pok_attr_value : forall v tail, wf_attr_value v -> pok (w_attr_value fmt hex v) tail.
+Lemma pok_attr_value : forall v tail, wf_attr_value up v -> pok up (w_attr_value fmt hex v) tail.
 Proof.
   intros v tail (Hn & Hr & Hv). destruct v as [name ref val]; cbn [av_name av_ref av_value] in *.
   unfold w_attr_value. cbn [av_name av_ref av_value].
@@ -189,38 +195,38 @@ Proof.
     destruct val; cbn [w_attr_val wf_val] in *; pk.
 Qed.
 
-Lemma pok_value_encoding : forall v tail, wf_value_encoding v -> pok (w_value_encoding v) tail.
+Lemma pok_value_encoding : forall v tail, wf_value_encoding up v -> pok up (w_value_encoding v) tail.
 Proof.
   intros v tail (Hr & Hv). destruct v as [ref vals]; cbn [ve_ref ve_values] in *. unfold w_value_encoding. cbn [ve_ref ve_values].
   destruct ref as [id n|n]; cbn [w_enc_ref]; [destruct Hr as [Hr1 Hr2]|]; pk;
     apply pok_flat_map; intros d t' Hd; apply pok_value_desc; rewrite Forall_forall in Hv; apply Hv; exact Hd.
 Qed.
 
-Lemma pok_signal_group : forall g tail, wf_signal_group g -> pok (w_signal_group g) tail.
+Lemma pok_signal_group : forall g tail, wf_signal_group up g -> pok up (w_signal_group g) tail.
 Proof. intros g tail (Hid & Hn & Hr & Hs). unfold w_signal_group. pk. apply pok_idents; [exact Hs|split; reflexivity]. Qed.
 
-Lemma pok_sig_ext_value_type : forall v tail, wf_sig_ext_value_type v -> pok (w_sig_ext_value_type v) tail.
+Lemma pok_sig_ext_value_type : forall v tail, wf_sig_ext_value_type up v -> pok up (w_sig_ext_value_type v) tail.
 Proof. intros v tail (Hid & Hn). unfold w_sig_ext_value_type. destruct (sv_type v); cbn [w_ext_type]; pk. Qed.
 
-Lemma pok_ranges : forall l tail, hd_term tail = true -> pok (w_ranges l) tail.
+Lemma pok_ranges : forall l tail, hd_term tail = true -> pok up (w_ranges l) tail.
 Proof.
   intros l tail Ht. destruct l as [|x l]; [exact I|]. unfold w_ranges, w_range. cbv delta [sp pu].
   split; [split; [discriminate|reflexivity]|]. split; [apply range_wf|]. split.
   - destruct l as [|y l]; cbn [flat_map app render]; [exact Ht|reflexivity].
-  - apply (pok_flat_map_tail _ _ (fun R => hd_term R = true)); [| |exact Ht].
+  - apply (pok_flat_map_tail up _ _ (fun R => hd_term R = true)); [| |exact Ht].
     + intros y R _ HR. split; [reflexivity|]. split; [reflexivity|]. split; [split; [discriminate|reflexivity]|].
       split; [apply range_wf|]. split; [exact HR|exact I].
     + intros y R. reflexivity.
 Qed.
 
-Lemma pok_ext_mux : forall x tail, wf_ext_mux x -> pok (w_ext_mux x) tail.
+Lemma pok_ext_mux : forall x tail, wf_ext_mux up x -> pok up (w_ext_mux x) tail.
 Proof.
   intros x tail (Hid & H1 & H2 & Hne & Hr). unfold w_ext_mux. pk.
   - split; [exact H2|split; [destruct (xm_ranges x); [congruence|reflexivity]|exact I]].
   - apply pok_ranges; reflexivity.
 Qed.
 
-Lemma pok_item : forall it tail, wf_item it -> pok (w_item fmt hex it) tail.
+Lemma pok_item : forall it tail, wf_item up it -> pok up (w_item fmt hex it) tail.
 Proof.
   intros it tail H. destruct it; cbn [wf_item w_item] in *; try contradiction.
   - apply pok_value_table; exact H.
@@ -242,45 +248,45 @@ Qed.
 
 
 (* ---- header ---- *)
-Lemma pok_version : forall v tail, expr_string v = true -> pok (w_version v) tail.
+Lemma pok_version : forall v tail, expr_string v = true -> pok up (w_version v) tail.
 Proof. intros v tail H. unfold w_version. pk. Qed.
 
-Lemma ns_word_pok : forall s tail, mem_str s new_symbols_values = true -> pok [Sp [ch_tab]; word s; nl] tail.
+Lemma ns_word_pok : forall s tail, mem_str s new_symbols_values = true -> pok up [Sp [ch_tab]; word s; nl] tail.
 Proof.
   intros s tail H. unfold mem_str in H. apply existsb_exists in H. destruct H as [x [Hin Hx]].
   apply str_eqb_eq in Hx. subst x. unfold new_symbols_values in Hin. cbn [In] in Hin.
   repeat (destruct Hin as [Hin|Hin]; [subst s;
-    (split; [split; [discriminate|reflexivity]|split; [vm_compute; reflexivity|split; [reflexivity|split; [split; [discriminate|reflexivity]|exact I]]]])|]).
+    (split; [split; [discriminate|reflexivity]|split; [apply wf_ascii_word; vm_compute; reflexivity|split; [reflexivity|split; [split; [discriminate|reflexivity]|exact I]]]])|]).
   contradiction.
 Qed.
 
-Lemma pok_new_symbols : forall l tail, wf_ns l -> pok (w_new_symbols l) tail.
+Lemma pok_new_symbols : forall l tail, wf_ns l -> pok up (w_new_symbols l) tail.
 Proof.
   intros l tail H. unfold w_new_symbols. pk.
   apply pok_flat_map. intros s t Hs. apply ns_word_pok. unfold wf_ns in H. rewrite Forall_forall in H. apply H; exact Hs.
 Qed.
 
-Lemma pok_bit_timing : forall b tail, wf_bs b -> pok (w_bit_timing b) tail.
+Lemma pok_bit_timing : forall b tail, wf_bs b -> pok up (w_bit_timing b) tail.
 Proof.
   intros b tail (H1 & H2 & H3). unfold w_bit_timing. destruct ((bt_baud b =? 0) && (bt_reg1 b =? 0) && (bt_reg2 b =? 0)); pk.
 Qed.
 
-Lemma pok_nodes : forall l tail, idents_ok l -> pok (w_nodes l) tail.
+Lemma pok_nodes : forall l tail, idents_ok up l -> pok up (w_nodes l) tail.
 Proof. intros l tail H. unfold w_nodes. pk. apply pok_idents; [exact H|split; reflexivity]. Qed.
 
 (* ---- the file ---- *)
-Lemma Forall_map_item : forall A (h : A -> item) l, Forall wf_item (map h l) -> forall x, In x l -> wf_item (h x).
+Lemma Forall_map_item : forall A (h : A -> item) l, Forall (wf_item up) (map h l) -> forall x, In x l -> wf_item up (h x).
 Proof. intros A h l H x Hx. rewrite Forall_forall in H. apply H. apply in_map; exact Hx. Qed.
 
 Lemma pok_slice : forall A (w : A -> list piece) (h : A -> item) l tail,
-  (forall x, w_item fmt hex (h x) = w x) -> Forall wf_item (map h l) -> pok (w_slice w l) tail.
+  (forall x, w_item fmt hex (h x) = w x) -> Forall (wf_item up) (map h l) -> pok up (w_slice w l) tail.
 Proof.
   intros A w h l tail Hw H. unfold w_slice. destruct l as [|x0 l0]; [exact I|]. apply pok_app_intro.
   - apply pok_flat_map. intros x t Hx. rewrite <- Hw. apply pok_item. eapply Forall_map_item; eauto.
   - split; [split; [discriminate|reflexivity]|exact I].
 Qed.
 
-Lemma pok_file : forall f, wf_file f -> pok (w_file fmt hex f) [].
+Lemma pok_file : forall f, wf_file up f -> pok up (w_file fmt hex f) [].
 Proof.
   intros f [(Hv & Hn & Hb & Hu) He]. unfold entries_of in He.
   repeat (apply Forall_app in He; destruct He as [? He]).
